@@ -13,6 +13,7 @@ CONDS = [
     ("_grad_concatenate3", "VJP of np.concatenate, 3 operands of rank 3", 240),
     ("_grad_concatenate4", "VJP of np.concatenate, 4 operands", 120),
     ("_grad_broadcast_to", "VJP of np.broadcast_to", 120),
+    ("_grad_broadcast_to_lead", "VJP of np.broadcast_to when the target has extra leading dimensions: refuses, or returns the argument's shape", 120),
     ("_dot", "VJPs of np.dot, ranks 0..3 x 0..3, real/complex kinds", 200),
     ("_tensordot", "VJPs of np.tensordot: axes int 0..2, explicit axis lists in both orders, negative", 300),
     ("_matmul", "VJPs of np.matmul: ranks 1..3, broadcast batch dimensions", 200),
